@@ -39,6 +39,8 @@ type Received struct {
 	Invalid       []string               `json:"invalid,omitempty"`
 	OpKeyword     string                 `json:"op,omitempty"`
 	TouchedArgs   map[string]int         `json:"-"`
+	// VariablesText: the variables as written by the gateway (number literals as text), keys sorted
+	VariablesText string `json:"-"`
 }
 
 type FilePart struct {
@@ -71,6 +73,8 @@ type FaultResponse struct {
 	Err    error
 	Status int
 	Body   []byte
+	// CutAfter > 0: the body breaks off after that many bytes with an unexpected EOF (the connection died mid-answer)
+	CutAfter int
 }
 
 func NewNet(w *world.World) (*Net, error) {
@@ -159,6 +163,35 @@ type rawReq struct {
 	Query         string                 `json:"query"`
 	Variables     map[string]interface{} `json:"variables"`
 	OperationName *string                `json:"operationName"`
+	// VariablesText: the variables as they were written (number literals kept as text), keys sorted
+	VariablesText string `json:"-"`
+}
+
+func (r *rawReq) UnmarshalJSON(b []byte) error {
+	var p struct {
+		Query         string          `json:"query"`
+		Variables     json.RawMessage `json:"variables"`
+		OperationName *string         `json:"operationName"`
+	}
+	if err := json.Unmarshal(b, &p); err != nil {
+		return err
+	}
+	r.Query, r.OperationName = p.Query, p.OperationName
+	if len(p.Variables) == 0 {
+		return nil
+	}
+	if err := json.Unmarshal(p.Variables, &r.Variables); err != nil {
+		return err
+	}
+	dec := json.NewDecoder(bytes.NewReader(p.Variables))
+	dec.UseNumber()
+	var v interface{}
+	if dec.Decode(&v) == nil {
+		if t, err := json.Marshal(v); err == nil {
+			r.VariablesText = string(t)
+		}
+	}
+	return nil
 }
 
 func (n *Net) RoundTrip(req *http.Request) (*http.Response, error) {
@@ -192,14 +225,14 @@ func (n *Net) RoundTrip(req *http.Request) (*http.Response, error) {
 				return jsonResponse(400, []byte(`{"errors":[{"message":"bad json"}]}`)), nil
 			}
 			for _, r := range rr {
-				recs = append(recs, &Received{Query: r.Query, Variables: r.Variables, OperationName: r.OperationName})
+				recs = append(recs, &Received{Query: r.Query, Variables: r.Variables, OperationName: r.OperationName, VariablesText: r.VariablesText})
 			}
 		} else {
 			var r rawReq
 			if err := json.Unmarshal(trim, &r); err != nil {
 				return jsonResponse(400, []byte(`{"errors":[{"message":"bad json"}]}`)), nil
 			}
-			recs = []*Received{{Query: r.Query, Variables: r.Variables, OperationName: r.OperationName}}
+			recs = []*Received{{Query: r.Query, Variables: r.Variables, OperationName: r.OperationName, VariablesText: r.VariablesText}}
 			single = true
 		}
 	}
@@ -240,7 +273,11 @@ func (n *Net) RoundTrip(req *http.Request) (*http.Response, error) {
 			n.mu.Lock()
 			n.ResponseBodies = append(n.ResponseBodies, fr.Body)
 			n.mu.Unlock()
-			return jsonResponse(st, fr.Body), nil
+			resp := jsonResponse(st, fr.Body)
+			if fr.CutAfter > 0 && fr.CutAfter < len(fr.Body) {
+				resp.Body.(*trackedBody).cutAfter = fr.CutAfter
+			}
+			return resp, nil
 		}
 	}
 	var out []byte
@@ -268,6 +305,8 @@ func jsonResponse(status int, body []byte) *http.Response {
 type trackedBody struct {
 	r        *bytes.Reader
 	released int32
+	cutAfter int // > 0: fail with io.ErrUnexpectedEOF after that many bytes
+	served   int
 }
 
 var heldBodies int64
@@ -284,7 +323,18 @@ func (t *trackedBody) release() {
 }
 
 func (t *trackedBody) Read(p []byte) (int, error) {
+	if t.cutAfter > 0 {
+		left := t.cutAfter - t.served
+		if left <= 0 {
+			t.release() // a broken connection is not given back, but it is not held either
+			return 0, io.ErrUnexpectedEOF
+		}
+		if len(p) > left {
+			p = p[:left]
+		}
+	}
 	n, err := t.r.Read(p)
+	t.served += n
 	if err == io.EOF {
 		t.release()
 	}
